@@ -2,6 +2,7 @@ SPECIFICATION Spec
 CONSTANTS P = 4
           J = 2
           Horizon = 40
+          ListFailureUsesDirAge = FALSE
           SweepStopsWriter = FALSE
           StopOnWriteError = TRUE
           MaxFaults = 1
